@@ -39,7 +39,6 @@ impl std::fmt::Display for Val {
                 }
             }
             Return(..) | Next(..) => {
-                debug_assert!(false);
                 return write!(f, "");
             }
         };
